@@ -59,6 +59,10 @@ def collect(v, tier, rnd, h, d, prop):
             i += 1
             ast = sqlgen.gen_ast(rnd, i)
             st = sqlgen.Style(rnd)
+            if any(not c["name"].isascii() for c in ast["cols"]) and rnd.random() < 0.75:
+                # names beyond ASCII written bare with nothing (or one blank) between them and the punctuation around them
+                st.quote = "bare"
+                st.ws = rnd.choice(["", "", " "])
             sql = sqlgen.render_table(ast, st)
             try:
                 con.execute(sql)
